@@ -146,6 +146,8 @@ def replace_subgroups(
 
         selection = selections.pop(field.name)
         if isinstance(selection, dict):
+            # NOTE: work on a copy, so that the caller's (nested) selection dict is not consumed.
+            selection = dict(selection)
             value_of_selection = selection.pop(keyword, None)
             child_selections = selection
         else:
